@@ -75,6 +75,7 @@ import (
 func TestVerif(t *testing.T) {
 	drv.Main(t,
 		drv.Wrap(drv.Engine[c15Case]{Property: "C15", Name: "c15", Gen: genC15, Run: runC15, BatchChecks: 10, GCEvery: 2}),
+		drv.Wrap(drv.Engine[c15cCase]{Property: "C15", Name: "c15-counter", Gen: genC15Counter, Run: runC15Counter, BatchChecks: 100}),
 	)
 }
 
